@@ -335,7 +335,7 @@ Section Round.
         * unfold base_scalars. repeat constructor.
     - rewrite <- map_app. apply Forall2_assoc_b.
       + rewrite map_map. cbn [dd_name conv_d]. rewrite map_app.
-        destruct (gen_ok_parts S GOK) as [_ [_ [_ [_ [_ [B _]]]]]].
+        destruct (gen_ok_parts S GOK) as [_ [_ [_ [_ [_ B]]]]].
         apply NoDup_app_intro; auto.
         * apply nodup_b_NoDup. reflexivity.
         * intros n I1 I2. apply in_map_iff in I1. destruct I1 as [d [E I]]. subst n. eapply B; eauto.
